@@ -353,6 +353,61 @@ let cmd_eng (r : rd) : string =
       ^ ";| " ^ hex_of_bytes fin
       ^ " | " ^ String.concat "/" (List.map (fun sec -> String.concat "," (List.map hex_of_bytes sec)) logs)
 
+(* ---------- CLS / CLI: outcome classification (Contract/V1Classify.v) ----------
+   CLS <budget> <n> { <cost> <logs hex,hex|-> <out hex|-> <changed 0|1> <end> }*n      end = i:<kind 0..9>:<cut> | r:<code u32> | t | l
+   CLI <budget> <cost> <logs> <out> <changed> <end>
+   answer: the results joined by " ; ":  I rem chg logs kind | S rem chg logs rv | R reason rem rv | T rem | O   (CLI: S rem logs rv; E value) *)
+let kind_of_index (k : int) : interrupt_kind =
+  match k with
+  | 0 -> ITransfer | 1 -> ICall | 2 -> IUpgrade | 3 -> IQueryAccountBalance | 4 -> IQueryContractBalance
+  | 5 -> IQueryExchangeRates | 6 -> ICheckAccountSignature | 7 -> IQueryAccountKeys
+  | 8 -> IQueryContractModuleReference | 9 -> IQueryContractName | _ -> raise (Bad "interrupt kind")
+let index_of_kind (k : interrupt_kind) : int =
+  match k with
+  | ITransfer -> 0 | ICall -> 1 | IUpgrade -> 2 | IQueryAccountBalance -> 3 | IQueryContractBalance -> 4
+  | IQueryExchangeRates -> 5 | ICheckAccountSignature -> 6 | IQueryAccountKeys -> 7
+  | IQueryContractModuleReference -> 8 | IQueryContractName -> 9
+let parse_section (r : rd) : csection =
+  let cost = n_of_string (next r) in
+  let logs = next r in
+  let out = next r in
+  let chg = num r = 1 in
+  let e = next r in
+  let cend = match String.split_on_char ':' e with
+    | ["i"; k; cut] -> CEInterrupt (kind_of_index (int_of_string k), n_of_string cut)
+    | ["r"; code] -> CEReturn (z_of_string code)
+    | ["t"] -> CETrap
+    | ["l"] -> CELoop
+    | _ -> raise (Bad "section end") in
+  { cs_cost = cost;
+    cs_logs = (if logs = "-" then [] else List.map bytes_of_hex (String.split_on_char ',' logs));
+    cs_out = (if out = "-" then [] else bytes_of_hex out); cs_changed = chg; cs_end = cend }
+let show_logs (l : n list list) : string = if l = [] then "-" else String.concat "," (List.map hex_of_bytes l)
+let show_bytes (b : n list) : string = if b = [] then "-" else hex_of_bytes b
+let show_n (x : n) : string = ustr (int64_of_n x)
+let show_rr (x : receive_result) : string =
+  match x with
+  | RRSuccess (logs, chg, rv, rem) -> Printf.sprintf "S %s %d %s %s" (show_n rem) (if chg then 1 else 0) (show_logs logs) (show_bytes rv)
+  | RRInterrupt (rem, chg, logs, k, _) -> Printf.sprintf "I %s %d %s %d" (show_n rem) (if chg then 1 else 0) (show_logs logs) (index_of_kind k)
+  | RRReject (reason, rv, rem) -> Printf.sprintf "R %Ld %s %s" (int64_of_z reason) (show_n rem) (show_bytes rv)
+  | RRTrap rem -> "T " ^ show_n rem
+  | RROutOfEnergy -> "O"
+let cmd_cls (r : rd) : string =
+  let budget = n_of_string (next r) in
+  let k = num r in
+  let secs = times k (fun () -> parse_section r) in
+  String.concat " ; " (List.map show_rr (classify_scenario budget secs))
+let cmd_cli (r : rd) : string =
+  let budget = n_of_string (next r) in
+  let s = parse_section r in
+  match classify_init budget s with
+  | Inl None -> "E none"
+  | Inl (Some v) -> Printf.sprintf "E %Ld" (int64_of_z v)
+  | Inr (IRSuccess (logs, rv, rem)) -> Printf.sprintf "S %s %s %s" (show_n rem) (show_logs logs) (show_bytes rv)
+  | Inr (IRReject (reason, rv, rem)) -> Printf.sprintf "R %Ld %s %s" (int64_of_z reason) (show_n rem) (show_bytes rv)
+  | Inr (IRTrap rem) -> "T " ^ show_n rem
+  | Inr IROutOfEnergy -> "O"
+
 let () =
   try
     while true do
@@ -364,6 +419,8 @@ let () =
           (match next r with
            | "C13" -> cmd_c13 r
            | "ENG" -> cmd_eng r
+           | "CLS" -> cmd_cls r
+           | "CLI" -> cmd_cli r
            | c -> "ERR unknown command " ^ c)
         with
         | Bad s -> "ERR " ^ s
